@@ -41,7 +41,7 @@ REJECTS = [
 
 
 def gen_cases(tier: str, seed: int) -> List[Dict[str, Any]]:
-    cases = gen_op_cases(PROPERTY, tier, seed, 1600, 40000)
+    cases = gen_op_cases(PROPERTY, tier, seed, 1600, 160000)
     reps = 2 if tier == "quick" else 20
     for r in range(reps):
         for j, (fn, what) in enumerate(REJECTS):
